@@ -630,10 +630,7 @@ fn pair_culprit(p: &Pat, q: &Pat, cache: &Mutex<HashMap<(Seg, Seg), bool>>) -> S
     match found.into_iter().next() {
         Some(c) => format!("col({})", c),
         None => {
-            let mut cols: BTreeSet<&'static str> = BTreeSet::new();
-            for i in 0..n {
-                cols.insert(col_class(&p.spec.segs[i], &q.spec.segs[i]));
-            }
+            // no single column reproduces it: identify by the relation of the two patterns' forms
             let scheme = match (&p.spec.scheme, &q.spec.scheme) {
                 (None, None) => "none",
                 (Some(a), Some(b)) if a == b => "same",
@@ -641,11 +638,10 @@ fn pair_culprit(p: &Pat, q: &Pat, cache: &Mutex<HashMap<(Seg, Seg), bool>>) -> S
                 _ => "one_none",
             };
             format!(
-                "shape(len={} abs={} scheme={} cols={})",
+                "shape(len={} abs={} scheme={})",
                 if p.spec.segs.len() == q.spec.segs.len() { "same" } else { "differ" },
                 if p.spec.absolute == q.spec.absolute { "same" } else { "differ" },
-                scheme,
-                cols.into_iter().collect::<Vec<_>>().join("+")
+                scheme
             )
         }
     }
@@ -1455,15 +1451,15 @@ fn main() {
     }
 
     let quick = ctx.quick();
-    let main_len = if quick { 3 } else { 5 };
-    let alias_len = if quick { 2 } else { 4 };
+    let main_len = if quick { 3 } else { 4 };
+    let alias_len = if quick { 2 } else { 3 };
     let meta = vec![
         // the patterns PlaneModel::check_meta_collisions tests every route against
         Spec::new(Some("swimos"), false, vec![lit("meta:node"), par("node_uri")]),
         Spec::new(Some("swimos"), false, vec![lit("meta:node"), par("node_uri"), lit("lane"), par("lane_name")]),
         Spec::new(Some("swimos"), false, vec![lit("meta:mesh")]),
     ];
-    let spaces = vec![
+    let mut spaces = vec![
         Space {
             name: "main",
             segs: vec![lit("a"), lit("b"), par("x"), par("y"), lit("a%20b"), lit("é")],
@@ -1480,10 +1476,27 @@ fn main() {
             extras: vec![],
         },
     ];
+    if !quick {
+        // one segment deeper than the stated bound, run last under its own wall cap: if the cap is hit
+        // the legs above are still complete and this one says how far it got
+        spaces.push(Space {
+            name: "deep",
+            segs: vec![lit("a"), lit("b"), par("x"), par("y"), lit("a%20b"), lit("é")],
+            max_len: 5,
+            schemes: vec![(None, 5), (Some("swim"), 5)],
+            extras: vec![],
+        });
+    }
     let mut out = Sink::default();
     run_malformed(&ctx, &mut out);
-    let cap = if quick { 40.0 } else { 600.0 };
     for sp in &spaces {
+        let cap = if quick {
+            40.0
+        } else if sp.name == "deep" {
+            420.0
+        } else {
+            240.0
+        };
         run_space(&ctx, sp, cap, &mut out);
     }
     // violations are reported in enumeration order (smallest first): the first per signature is kept
